@@ -74,6 +74,7 @@ class Bad:
         self.followup: Optional[Callable[[], Any]] = None   # a legal call made after the refusal (e.g. the retry without the offending value)
         self.followup_what = ''
         self.followup_check: Optional[Callable[[Any], Optional[str]]] = None   # judges what the follow-up returned
+        self.after_refusal: Optional[Callable[[], Optional[str]]] = None        # judges free objects involved in the refused call
 
 
 def resolve_bad(root: Any, other: Any, op: dict) -> Bad:
@@ -212,6 +213,29 @@ def resolve_bad(root: Any, other: Any, op: dict) -> Bad:
         b.what = f'{type(P).__name__}.{p.name} = the {p.name} of another {type(Q).__name__} (still attached there)'
         b.nontrivial = len(w) > 0 or len(getattr(P, p.name)) > 0
         b.call = lambda: setattr(P, p.name, w)
+        return b
+    if k == 'cyclic':
+        # a free tree given to a slot of one of its own descendants: can only be refused, and the tree stays what it was
+        which = op.get('which', 0) % 3
+        if which == 0:
+            free = common.parser().parse(op.get('text', '-(-1)'), models.NumberUnaryExpr)
+            inner = free.raw_operand.raw_inner_expr.raw_operands[0].raw_operands[0]
+            b.call = lambda: setattr(inner, 'raw_operand', free)
+            b.what = 'NumberUnaryExpr.raw_operand of a nested unary = the enclosing free expression'
+        elif which == 1:
+            free = common.parser().parse(op.get('text', '-1'), models.NumberUnaryExpr)
+            b.call = lambda: setattr(free, 'raw_operand', free)
+            b.what = 'u.raw_operand = u'
+        else:
+            mul = common.parser().parse('(1 + 2) * 3', models.NumberExpr).raw_number_add_expr.raw_operands[0]
+            free = models.NumberAddExpr.from_children((copy.deepcopy(mul),), ())
+            paren = free.raw_operands[0].raw_operands[0]
+            b.call = lambda: setattr(paren, 'raw_inner_expr', free)
+            b.what = 'NumberParenExpr.raw_inner_expr = the enclosing free expression'
+        text0 = ''.join(t.raw_text for t in free.token_store)
+        b.cls, b.must_raise, b.key, b.nontrivial = 'a:attached', True, f'cyclic-insertion:{which}', True
+        b.after_refusal = lambda: None if ''.join(t.raw_text for t in free.token_store) == text0 else (
+            f'the free expression held {text0!r} before the refused call and holds ' + repr(''.join(t.raw_text for t in free.token_store)) + ' after it')
         return b
     if k == 'pop-unevaluable':
         # values.pop(i) / meta.pop(key) of a value whose evaluation raises (1 / 0): the exception is legitimate, a changed document is not
@@ -533,6 +557,10 @@ def run_case(case: dict) -> Result:
                     vd = views_diff(vbefore, public_views(root) + public_views(other))
                     if vd:
                         res.bad(f'views-changed-after-refusal:{b.key}', f'{b.what} raised {raised!r} but what the models show changed: {vd}')
+                if b.after_refusal is not None and not res.violations:
+                    verdict = b.after_refusal()
+                    if verdict:
+                        res.bad(f'changed-after-refusal:{b.key}', f'{b.what} raised {raised!r} but {verdict}')
                 if b.followup is not None and not res.violations:
                     # the history goes on: a legal call with the values the refused call did not object to
                     classes.add('retry-after-refusal')
@@ -764,6 +792,7 @@ def _enum_custom_ctor():
         yield {'dirs': doc1, 'dirs2': doc1, 'ops': [{'f': 'bad', 'k': 'values-attached', 'mi': 0, 'op': name, 'sel': sel, 'src_other': src_other}]}
     for which in range(3):
         yield {'dirs': doc, 'dirs2': doc, 'ops': [{'f': 'bad', 'k': 'ctor-duplicate', 'which': which}]}
+        yield {'dirs': doc, 'dirs2': doc, 'ops': [{'f': 'bad', 'k': 'cyclic', 'which': which}]}
     for cls, sel, src_other in itertools.product(('Custom', 'Balance'), range(4), (False, True)):
         yield {'dirs': doc, 'dirs2': doc, 'ops': [{'f': 'bad', 'k': 'meta-update', 'cls': cls, 'mi': 0, 'sel': sel, 'src_other': src_other}]}
     for sel in range(3):
